@@ -5,6 +5,7 @@ mod dd_decode;
 mod e1;
 mod e2;
 mod e2_arp;
+mod e2_cksum;
 mod e2_dhcp;
 mod e2_dns;
 mod e2_link;
